@@ -301,29 +301,61 @@ example : replacedboxLayout ⟨10, 20, 0, 0, 0, 0, 0, 0, 0, 0, 0, 0, 0, 0, 100, 
 
 /-! ## C13.background_layer — `layout_background_layer` -/
 
-/-- `background-repeat: round`: an integer number `n ≥ 1` of tiles exactly fills the positioning area
-on that axis (`n` = Python's `round` of area / image, at least 1) and `background-position` is ignored
-there.  Holds whenever the function returns; it raises ZeroDivisionError for a zero image size
-(`Witness.background_round_zero_size`, known finding). -/
+/-- `background-repeat: round`: unless the tile is empty on that axis (nothing is painted then), an
+integer number `n ≥ 1` of tiles exactly fills the positioning area on that axis (`n` = Python's `round`
+of area / image, at least 1) and `background-position` is ignored there.  Full strength since the
+repair of `background-round-zero-size` (a zero-sized image skips the arithmetic instead of dividing
+by zero; `background_round_total`). -/
 theorem background_round (g : Geom) (kind : BoxKind) (pg : Geom) (i : Intr) (size : BgSize) (clip : BoxArea)
     (rx ry : Repeat) (origin : BoxArea) (pos : Position) (fixed : Bool) (pa : Rect) (l : Layer)
     (hres : layoutBackgroundLayer g kind pg (some i) size clip rx ry origin pos fixed = .ok ⟨pa, some l⟩) :
-    (rx = .round → ∃ n : Int, 1 ≤ n ∧ l.size.1 * (n : Rat) = l.positioningArea.w ∧ l.position.1 = 0) ∧
-    (ry = .round → ∃ n : Int, 1 ≤ n ∧ l.size.2 * (n : Rat) = l.positioningArea.h ∧ l.position.2 = 0) := by
+    (rx = .round → l.size.1 = 0 ∨
+      ∃ n : Int, 1 ≤ n ∧ l.size.1 * (n : Rat) = l.positioningArea.w ∧ l.position.1 = 0) ∧
+    (ry = .round → l.size.2 = 0 ∨
+      ∃ n : Int, 1 ≤ n ∧ l.size.2 * (n : Rat) = l.positioningArea.h ∧ l.position.2 = 0) := by
   obtain ⟨positioning, s, p1, p2, h1, h2, h3, h4, rfl⟩ := layer_inv g kind pg i size clip rx ry origin pos fixed pa l hres
   constructor
   · rintro rfl
-    obtain ⟨n, hn, hfill, hpx, _⟩ := roundX_spec ry size positioning.w _ p1 h3
-    by_cases hry : ry = .round
-    · subst hry
-      obtain ⟨_, _, _, _, hpx', hiw⟩ := roundY_spec .round size positioning.h p1 p2 h4
-      exact ⟨n, hn, by simp [hiw rfl, hfill], by simp [hpx', hpx]⟩
-    · have := roundY_not_round .round ry size positioning.h p1 p2 hry h4
-      subst this
-      exact ⟨n, hn, hfill, hpx⟩
+    obtain ⟨hx1, hx0, _⟩ := roundX_spec ry size positioning.w _ p1 h3
+    -- with `round` on x, the later y step leaves the width and the x position alone
+    have hkeep : p2.iw = p1.iw ∧ p2.px = p1.px := by
+      by_cases hry : ry = .round
+      · subst hry
+        obtain ⟨_, _, hpx', hiw⟩ := roundY_spec .round size positioning.h p1 p2 h4
+        exact ⟨hiw rfl, hpx'⟩
+      · have := roundY_not_round .round ry size positioning.h p1 p2 hry h4
+        subst this; exact ⟨rfl, rfl⟩
+    by_cases h0 : s.1 = 0
+    · left
+      have : p1 = _ := hx0 h0
+      simp only [hkeep.1, this, h0]
+    · right
+      obtain ⟨n, hn, hfill, hpx⟩ := hx1 h0
+      exact ⟨n, hn, by simp only [hkeep.1, hfill], by simp only [hkeep.2, hpx]⟩
   · rintro rfl
-    obtain ⟨n, hn, hfill, hpy, _, _⟩ := roundY_spec rx size positioning.h p1 p2 h4
-    exact ⟨n, hn, hfill, hpy⟩
+    obtain ⟨hy1, hy0, _, _⟩ := roundY_spec rx size positioning.h p1 p2 h4
+    by_cases h0 : p1.ih = 0
+    · left
+      have : p2 = p1 := hy0 h0
+      simp only [this, h0]
+    · right
+      obtain ⟨n, hn, hfill, hpy⟩ := hy1 h0
+      exact ⟨n, hn, hfill, hpy⟩
+
+/-- The `round` steps of `layout_background_layer` never raise, whatever the tile size (regression
+statement for the repaired `background-round-zero-size`). -/
+theorem background_round_total (rx ry : Repeat) (size : BgSize) (pw ph : Rat) (p : Placed) :
+    ∃ p1 p2, roundX rx ry size pw p = .ok p1 ∧ roundY rx ry size ph p1 = .ok p2 := by
+  obtain ⟨p1, h1⟩ := roundX_total rx ry size pw p
+  obtain ⟨p2, h2⟩ := roundY_total rx ry size ph p1
+  exact ⟨p1, p2, h1, h2⟩
+
+/-- Regression for `background-round-zero-size`: `background-size: 0 auto` with `round` is laid out
+(tile 0 × 0, then not painted) instead of raising ZeroDivisionError. -/
+example : (layoutBackgroundLayer ⟨0, 0, 0, 0, 0, 0, 0, 0, 0, 0, 0, 0, 0, 0, 100, 50⟩ .plain
+      ⟨0, 0, 0, 0, 0, 0, 0, 0, 0, 0, 0, 0, 0, 0, 100, 50⟩ (some ⟨some 4, some 4, some 1⟩)
+      (.explicit (some (.px 0)) none) .borderBox .round .repeat .paddingBox ⟨false, .pct 0, false, .pct 0⟩
+      false).toOption.map (fun r => r.layer.map (fun l => l.size)) = some (some (0, 0)) := by decide +kernel
 
 /-- Without `round`, the layer's size is the concrete object size and the position the
 `background-position` percentage of the free space, from the named edge. -/
